@@ -6,7 +6,8 @@ PROP = 'C01'
 LEVEL = 'exploration'
 RULE = ('Random operation sequences (10-200 requests) against the real SimulatedBroker with a harness-owned '
         'quote book: account/portfolio subscribe and withdraw, portfolio creation (1-4), orders of either sign, '
-        'clock updates on a hostile time grid, quote moves, ExecutionHandler calls, a few refused requests; plus '
+        'clock updates on a hostile time grid (incl. updates that go back in time, after which transfers are requested '
+        'while the broker clock is behind a portfolio clock), quote moves, ExecutionHandler calls, refused requests; plus '
         'portfolio-level random ladders. After EVERY request a shadow ledger in exact rationals is compared with '
         'all balances, the account aggregates and the event history. A case is non-trivial when it has >=1 fill, '
         '>=1 transfer in each direction and >=2 portfolios; distinct = distinct (request kind, side) sequence.')
@@ -31,7 +32,7 @@ def plan(tier, seed):
 def run_shard(spec, acc):
     import random
     if spec['kind'] == 'broker':
-        brokerwl.shard_broker(spec, acc, PROP, 'benign')
+        brokerwl.shard_broker(spec, acc, PROP, 'benign+back')
     else:
         rng = random.Random(spec['rng'])
         for _ in range(spec['cases']):
